@@ -3,6 +3,7 @@ import OdcGeo.Model.C08Args
 import OdcGeo.Model.C02
 import OdcGeo.Model.C20NonFinite
 import OdcGeo.Model.C08NonFinite
+import OdcGeo.Model.C08C07
 import OdcGeo.Drv.C20
 namespace OdcGeo.C08.Drv
 open OdcGeo OdcGeo.IO OdcGeo.C08
@@ -164,6 +165,29 @@ def run (args : List String) : Option String :=
     pure (match NF.fromBboxNumShapeX l b r t q snap tol with
       | .ok g => s!"{g.ny} {g.nx} {C20.Drv.fmtXF g.a} {C20.Drv.fmtXF g.e} {C20.Drv.fmtXF g.c} {C20.Drv.fmtXF g.f}"
       | .error e => e.toStr)
+  | ["polyvia", geom, pcrs, crs, A, res, align, shape, tight, anchor, tol] => do
+    -- from_geopolygon through C07's to_crs model.  geom: parts separated by `@`, rings of a part by `|`, points `x;y` by `,`
+    -- (one part = Polygon, several = MultiPolygon); CRS code n is the record ⟨n, n, n, n⟩ (distinct codes compare unequal)
+    let parts ← (geom.splitOn "@").mapM fun part =>
+      (part.splitOn "|").mapM fun ring => (ring.splitOn ",").mapM fun pt => (parsePt? pt).map toPt
+    let polys ← parts.mapM fun rings => match rings with
+      | ext :: holes => some (C07.Geom.polygon ext holes)
+      | [] => none
+    let g : C07.Geom Rat := match polys with
+      | [one] => one
+      | many => .multiPolygon many
+    let rec' := fun (n : Nat) => (⟨n, n, n, n⟩ : C01.CrsRec)
+    let pcrs ← parseOpt? parseNat? pcrs; let crs ← parsePolyCrs? crs; let A ← parseAff? A
+    let res ← parseRes? res; let align ← parseOpt? parsePt? align
+    let shape ← parseShape? shape; let tight ← parseBool? tight
+    let anchor ← parseAnchor? anchor; let tol ← parseRat? tol
+    let crsArg : CrsArgTag := match crs with
+      | .unset => .unset
+      | .given c => .given (some (rec' c))
+    match fromGeopolygonVia ⟨fun _ _ => 0, fun _ _ _ => 0⟩ (fun _ _ p => toPt (A.apply (ofPt p))) (fun _ => 0)
+        ⟨pcrs.map rec', g⟩ crsArg res align shape tight anchor tol with
+    | none => pure "EMPTY"
+    | some r => pure (fmtRes (fun (q : GeoBox × C01.Tag) => s!"{fmtGeoBox q.1} {match q.2 with | some c => c.epsg | none => 0}") r)
   | ["bboxutm", l, b, r, t, A, tight, shape, res, anchor, tol] => do
     -- the utm shortcut with an affine stand-in `A` for the projection
     let l ← parseRat? l; let b ← parseRat? b; let r ← parseRat? r; let t ← parseRat? t
